@@ -53,14 +53,17 @@ const (
 	CtTimersFired
 	CtSpawned
 	CtFinalizersRun
-	CtRandDraws // "random" numbers the library asked for (drawn from the schedule tape)
-	CtSimMicros // simulated time covered by the run's clock, in microseconds
+	CtRandDraws        // "random" numbers the library asked for (drawn from the schedule tape)
+	CtMapRanges        // range statements over maps in the library whose order came from the tape
+	CtMapKeysUnordered // pointers in map keys first seen at a range statement (their relative order is the runtime's)
+	CtSelectOrders     // select statements in the library whose order of preference came from the tape
+	CtSimMicros        // simulated time covered by the run's clock, in microseconds
 	NumCounters
 )
 
 // CounterNames for evidence.
 var CounterNames = [NumCounters]string{"pool_get", "pool_get_hit", "pool_get_new", "pool_put",
-	"fault_putdrop", "fault_miss", "fault_gc", "gc_dropped_objects", "steps", "task_switches", "inner_yields", "fault_stall", "blocked_yields", "spin_breaks", "fault_clock_jump", "timers_fired", "library_goroutines_as_tasks", "finalizers_run", "library_random_draws", "simulated_microseconds"}
+	"fault_putdrop", "fault_miss", "fault_gc", "gc_dropped_objects", "steps", "task_switches", "inner_yields", "fault_stall", "blocked_yields", "spin_breaks", "fault_clock_jump", "timers_fired", "library_goroutines_as_tasks", "finalizers_run", "library_random_draws", "library_map_ranges_ordered", "map_key_pointers_numbered_late", "library_selects_ordered", "simulated_microseconds"}
 
 // FaultDen is the denominator of all fault rates.
 const FaultDen = 256
@@ -119,40 +122,42 @@ type Sim struct {
 	objKeep     []unsafe.Pointer
 	Procs       int // what runtime.GOMAXPROCS(0) and runtime.NumCPU() report to the library in this run
 	objUsed     int
+	keyNums     addrTable // pointers used as map keys by the library (see maporder.go)
 	objVals     []int32
 	objCount    int
 	realGCs     int
 
 	// scheduler
-	Strategy     int
-	StickyP      int
-	MaxSteps     int
-	tasks        []*Task
-	yieldCh      chan yieldMsg
-	running      *Task
-	step         int
-	wg           sync.WaitGroup
-	pctChange    []int
-	GCSteps      []int // scheduler step after which each gc event fired
-	Overrun      bool  // MaxSteps exceeded: remaining tasks were run sequentially
-	InnerG       int   // inner yield points: after each resume the gap to the next inner yield is Draw(InnerG), 0 = none
-	InnerBudget  int   // inner yields left in this run
-	innerGap     int
-	InnerSites   uint64 // bit per site: steps starting at these sites may be pre-empted at inner points (0 = all)
-	StallMax     int    // stall fault: a task pre-empted at an inner point is held back for Draw(StallMax) steps
-	spawned      []*Task
-	pointsInStep int
-	coopProgress int // successful cooperative operations (lock taken, value sent/received)
-	mail         []*mailItem
-	fin          finState
-	handoff      []handoffItem
-	wgs          []*wgShadow
-	finishedRun  bool
-	Deadlocked   string // non-empty: the run was abandoned because every live task was blocked
-	RaceAborted  bool   // the run was cut short because the race detector had already reported a race in it
-	raceBase     int
-	step0        int // step count when the current Run began
-	inRun        bool
+	Strategy      int
+	StickyP       int
+	MaxSteps      int
+	tasks         []*Task
+	yieldCh       chan yieldMsg
+	running       *Task
+	step          int
+	wg            sync.WaitGroup
+	pctChange     []int
+	GCSteps       []int // scheduler step after which each gc event fired
+	Overrun       bool  // MaxSteps exceeded: remaining tasks were run sequentially
+	InnerG        int   // inner yield points: after each resume the gap to the next inner yield is Draw(InnerG), 0 = none
+	InnerBudget   int   // inner yields left in this run
+	innerGap      int
+	InnerSyncOnly bool   // inner pre-emption only right after atomic operations and sync.Map operations (the points with id 0), as in schedulers that pre-empt at synchronisation operations only
+	InnerSites    uint64 // bit per site: steps starting at these sites may be pre-empted at inner points (0 = all)
+	StallMax      int    // stall fault: a task pre-empted at an inner point is held back for Draw(StallMax) steps
+	spawned       []*Task
+	pointsInStep  int
+	coopProgress  int // successful cooperative operations (lock taken, value sent/received)
+	mail          []*mailItem
+	fin           finState
+	handoff       []handoffItem
+	wgs           []*wgShadow
+	finishedRun   bool
+	Deadlocked    string // non-empty: the run was abandoned because every live task was blocked
+	RaceAborted   bool   // the run was cut short because the race detector had already reported a race in it
+	raceBase      int
+	step0         int // step count when the current Run began
+	inRun         bool
 	clock
 
 	// measurements
@@ -456,7 +461,7 @@ func PointAt(id int) {
 		t.yield(t.parked)
 		return
 	}
-	if s.innerGap == 0 || t.lockDepth > 0 {
+	if s.innerGap == 0 || t.lockDepth > 0 || (s.InnerSyncOnly && id != 0) {
 		return
 	}
 	s.innerGap--
